@@ -401,12 +401,162 @@ def numeric_refutes(goal, env, funcs=None, tol=1e-7):
         return False
 
 
+_ITE_CACHE = {}
+_ABS_MEMO = {}
+
+
+def canon_abs(t):
+    """rewrite abs-shaped If-terms  If(u >= 0, u, -u) / If(-u >= 0, -u, u) ...  into one canonical
+    form |c| with c chosen among {u, -u} deterministically, so that |m| and |-m| become the same
+    term (z3 terms are hash-consed)"""
+    memo = {}
+
+    def is_neg_of(a, b):
+        s_ = z3.simplify(a + b)
+        return z3.is_rational_value(s_) and s_.as_fraction() == 0
+
+    def rec(e):
+        k = e.get_id()
+        if k in memo:
+            return memo[k]
+        ch = e.children()
+        if not ch:
+            memo[k] = e
+            return e
+        nch = [rec(c) for c in ch]
+        r = e.decl()(*nch) if any(a.get_id() != b.get_id() for a, b in zip(ch, nch)) else e
+        if z3.is_app_of(r, z3.Z3_OP_ITE) and r.arg(1).sort() == z3.RealSort():
+            c, a, b = r.arg(0), r.arg(1), r.arg(2)
+            try:
+                if is_neg_of(a, b):
+                    # value is `a` when c else `-a`; find out whether c <=> a >= 0 or c <=> a <= 0
+                    kind = _abs_kind(c, a)
+                    if kind is not None:
+                        sa, sb = z3.simplify(a), z3.simplify(b)
+                        cc = sa if str(sa) <= str(sb) else sb
+                        absc = z3.If(cc >= 0, cc, -cc)
+                        r = absc if kind > 0 else -absc
+            except z3.Z3Exception:
+                pass
+        memo[k] = r
+        return r
+    return rec(t)
+
+
+def _abs_kind(c, a):
+    """+1 if (c <=> a >= 0 or a > 0, i.e. the If is |a|), -1 if it is -|a|, else None"""
+    key = (c.get_id(), a.get_id())
+    if key in _ABS_MEMO:
+        return _ABS_MEMO[key]
+    ab = _Abstractor()
+    v = z3.Real("abs!probe")
+    # treat `a` as an opaque variable: c must be a comparison of a (or -a) with 0
+    try:
+        ca = z3.substitute(z3.simplify(c), (z3.simplify(a), v))
+    except z3.Z3Exception:
+        ca = None
+    res = None
+    cands = [c]
+    for cand in ([ca] if ca is not None else []) + cands:
+        s1 = z3.Solver()
+        s1.set("timeout", 500)
+        a_ = v if cand is ca else a
+        s1.add(a_ != 0, z3.Not(cand == (a_ >= 0)))
+        if str(s1.check()) == 'unsat':
+            res = 1
+            break
+        s2 = z3.Solver()
+        s2.set("timeout", 500)
+        s2.add(a_ != 0, z3.Not(cand == (a_ <= 0)))
+        if str(s2.check()) == 'unsat':
+            res = -1
+            break
+    _ABS_MEMO[key] = res
+    return res
+
+
+
+def _collect_ite_conds(t, acc, seen):
+    stack = [t]
+    while stack:
+        e = stack.pop()
+        i = e.get_id()
+        if i in seen:
+            continue
+        seen.add(i)
+        if z3.is_app_of(e, z3.Z3_OP_ITE):
+            acc[e.arg(0).get_id()] = e.arg(0)
+        stack.extend(e.children())
+
+
+def resolve_ites(hyps, goal):
+    """decide the conditions of If-terms (abs, max, min) occurring in the goal from the hypotheses
+    with the cheap linear abstraction and substitute the decided ones; sound (only entailed facts
+    are used) and makes most |m|-laden identities accessible to the rewriter"""
+    conds = {}
+    _collect_ite_conds(goal, conds, set())
+    if not conds or len(conds) > 24:
+        return goal
+    key = id(hyps)
+    ent = _ITE_CACHE.get(key)
+    if ent is None or ent[0] is not hyps:
+        ab = _Abstractor()
+        s = z3.Solver()
+        s.set("timeout", 1500)
+        try:
+            for h in hyps:
+                s.add(ab.ab(z3.simplify(h)))
+        except z3.Z3Exception:
+            return goal
+        ent = (hyps, ab, s, {})
+        _ITE_CACHE.clear()
+        _ITE_CACHE[key] = ent
+    _, ab, s, decided = ent
+    subs = []
+    for cid, c in conds.items():
+        if cid not in decided:
+            v = None
+            try:
+                ca = ab.ab(z3.simplify(c))
+                s.push()
+                s.add(z3.Not(ca))
+                if guarded_check(s, 1500) == 'unsat':
+                    v = True
+                s.pop()
+                if v is None:
+                    s.push()
+                    s.add(ca)
+                    if guarded_check(s, 1500) == 'unsat':
+                        v = False
+                    s.pop()
+            except z3.Z3Exception:
+                v = None
+            decided[cid] = v
+        if decided[cid] is not None:
+            subs.append((c, z3.BoolVal(decided[cid])))
+    if not subs:
+        return goal
+    return z3.simplify(z3.substitute(goal, *subs))
+
+
 def check(hyps, goal, timeout_ms=None, sample=None, use_cvc5=False, want_model=True, witness=None):
     """Decide  hyps |= goal.  Returns (verdict, model, method) with verdict in
     {'unsat' (holds), 'sat' (counterexample), 'unknown'}."""
     timeout_ms = timeout_ms or QUICK_TIMEOUT_MS
     STATS.obligations += 1
     t0 = time.time()
+    # 0. If-terms whose condition is entailed by the hypotheses are resolved
+    try:
+        goal = resolve_ites(hyps, goal)
+    except z3.Z3Exception:
+        pass
+    try:
+        goal = canon_abs(goal)
+    except (z3.Z3Exception, RecursionError):
+        pass
+    if z3.is_true(goal):
+        STATS.rewriter += 1
+        return 'unsat', None, 'rewriter'
     # 1. rewriter on equalities
     g = goal
     if z3.is_eq(g) and g.arg(0).sort() == z3.RealSort():
